@@ -126,8 +126,10 @@ fn format_via_uucore(
                     ))),
                 })?;
 
+            // N.B. An item asks us to stop (`\c`): that ends all output, not just this pass
+            // over the format; otherwise the remaining operands would never be consumed.
             if control_flow == ControlFlow::Break(()) {
-                break;
+                return Ok(());
             }
         }
 
